@@ -129,7 +129,16 @@ func (w *simWorld) cell(name string) {
 	w.mu.Unlock()
 }
 
+var stacksDumped bool
+
 func (w *simWorld) violate(prop, clause, subject, detail string) {
+	if os.Getenv("VSIM_STACKS") != "" && !stacksDumped {
+		// debugging aid: where every goroutine stands at the first violation
+		stacksDumped = true
+		buf := make([]byte, 8<<20)
+		n := runtime.Stack(buf, true)
+		os.Stderr.Write(buf[:n])
+	}
 	v := Violation{Prop: prop, Clause: clause, Subject: subject, Detail: detail, At: fmt.Sprintf("%.3fs", w.now().Seconds())}
 	w.mu.Lock()
 	if len(w.viols) < 50 {
